@@ -673,10 +673,11 @@ pub fn run_case(c: &Case, workdir: &str) -> (String, String) {
         s[a..b].to_string()
     };
     let req = format!(
-        "(case {} (table {} (primary {})) {} (snap {}) (blocks {}) (queries {}) (scans {}))",
+        "(case {} (table {} (primary {}) (int {})) {} (snap {}) (blocks {}) (queries {}) (scans {}))",
         c.id,
         ncols,
         primary,
+        (0..ncols).filter(|i| c.cols[*i].ty == Ty::I32).map(|i| i.to_string()).collect::<Vec<_>>().join(" "),
         ops_s,
         snap.iter().map(|x| x.to_string()).collect::<Vec<_>>().join(" "),
         blocks.join(" "),
